@@ -25,7 +25,7 @@ func Replay(prop, path string) int {
 	}
 	var rp struct {
 		Property, Signature, Witness, Detail, Space, Tier string
-		Choices                                          []int
+		Choices                                           []int
 	}
 	if err := json.Unmarshal(b, &rp); err != nil {
 		fmt.Fprintln(os.Stderr, err)
